@@ -546,6 +546,9 @@ func bareScenario(sc *CScenario, repeat int) {
 			if err == nil {
 				err = addReg(c, r, svc)
 			}
+			if err == nil {
+				err = applyRemovals(c, r)
+			}
 			if err != nil {
 				fmt.Fprintln(os.Stderr, "bare: registration failed:", err)
 				os.Exit(4)
@@ -650,13 +653,24 @@ func concMain(args []string) {
 		S = nil
 		sc := bufio.NewScanner(os.Stdin)
 		sc.Buffer(make([]byte, 1<<20), 1<<26)
+		nprog := 0
 		for sc.Scan() {
 			var s CScenario
 			if err := json.Unmarshal(sc.Bytes(), &s); err != nil {
 				fmt.Fprintln(os.Stderr, "bad scenario:", err)
 				os.Exit(4)
 			}
+			// a program that does not finish is a deadlock (or a lost wake-up) in the container: report which one
+			// and stop; the driver continues with the programs after it in a fresh process
+			nprog++
+			line := append([]byte(nil), sc.Bytes()...)
+			n := nprog
+			watchdog := time.AfterFunc(40*time.Second, func() {
+				fmt.Fprintf(os.Stderr, "\nBARE-HANG index=%d program=%s\n", n, line)
+				os.Exit(3)
+			})
 			bareScenario(&s, *bare)
+			watchdog.Stop()
 		}
 		return
 	}
